@@ -289,7 +289,7 @@ func runC08(c *report.Ctx) {
 	ruleRestartResumesTasks(c)
 	rulePartialDecoderFreshRecord(c)
 	ruleBalanceLookupPresence(c) // a rollback between two removal steps must not re-create the removed wallet's rows
-	ruleImportAppliesSpends(c) // "the same mnemonic can be imported again": records a removal kept for a co-owner must not make the re-import skip the spends
+	ruleImportAppliesSpends(c)   // "the same mnemonic can be imported again": records a removal kept for a co-owner must not make the re-import skip the spends
 	ruleSelectionResetOnDelete(c)
 	ruleBlockRecordCount(c)
 }
